@@ -127,6 +127,16 @@ func ruleC14NoRetainIn(r *Run, p *Program, rule string) {
 	for g := range t.Globals {
 		r.bad(rule, "global:"+g.Name(), "", "a caller's byte slice is stored in package variable "+g.Name())
 	}
+	// handed to code outside the module: only to functions known to read and not keep their argument
+	next := 0
+	for _, e := range t.Ext {
+		if readOnlyExternal(e.Callee) {
+			next++
+			continue
+		}
+		r.bad(rule, funcKey(e.In.Parent())+"->"+e.Callee, p.Pos(instrPos(e.In)), "a byte slice passed in by the caller (or the address of the variable holding it) is handed to "+e.Callee+", which is not known to only read it: the database may keep a reference to memory the caller is free to overwrite as soon as the call returns", t.Trace(e.Arg)...)
+	}
+	r.ok(rule, "external-calls", "", fmt.Sprintf("%d calls hand a caller's slice to code outside the module, all to functions that only read it", next), true)
 	// the record written to the log is a fresh buffer: encodeRecord returns a make() result
 	if f := p.Fn("pogreb.encodeRecord"); r.anchor(rule, "pogreb.encodeRecord", f != nil) {
 		fresh := true
@@ -165,6 +175,122 @@ func ruleC14NoRetainIn(r *Run, p *Program, rule string) {
 	if len(tf.FieldList()) == 0 {
 		r.ok(rule, "fs-write-buffers", "", fmt.Sprintf("no fs Write/WriteAt implementation stores its buffer argument (%d parameters)", nfs), true)
 	}
+}
+
+// readOnlyExternal: functions outside the module known to read a byte-slice argument without keeping it.
+func readOnlyExternal(callee string) bool {
+	switch {
+	case strings.HasPrefix(callee, "bytes.Equal"), strings.HasPrefix(callee, "bytes.Compare"),
+		strings.HasPrefix(callee, "hash/crc32."), strings.HasPrefix(callee, "encoding/binary."),
+		strings.HasPrefix(callee, "(encoding/binary.littleEndian)."), strings.HasPrefix(callee, "unsafe."),
+		strings.HasPrefix(callee, "bytes.HasPrefix"), strings.HasPrefix(callee, "bytes.HasSuffix"):
+		return true
+	}
+	return false
+}
+
+// ruleC14ReturnedOwned: a byte slice handed to the caller is not also kept by the database. For every allocation
+// site of a byte slice (make, or a call of a function that returns a fresh slice) whose value can reach a result of
+// the exported API, the same value reaches no field of a long-lived struct, no package variable and no code outside
+// the module that may keep it.
+func ruleC14ReturnedOwned(r *Run, p *Program, rule string) {
+	api := exportedAPIFuncs(p)
+	// functions returning a fresh slice: every returned slice is a make() of that activation
+	fresh := map[*ssa.Function]bool{}
+	for _, f := range p.ModuleFuncs("") {
+		if f.Pkg != p.MainS || f.Signature.Results().Len() != 1 || f.Blocks == nil {
+			continue
+		}
+		if _, ok := f.Signature.Results().At(0).Type().Underlying().(*types.Slice); !ok {
+			continue
+		}
+		okf := len(returnsOf(f)) > 0
+		for _, ret := range returnsOf(f) {
+			for _, s := range sources(ret.Results[0]) {
+				if _, ok := s.(*ssa.MakeSlice); !ok {
+					okf = false
+				}
+			}
+		}
+		if okf {
+			fresh[f] = true
+		}
+	}
+	var sites []ssa.Value
+	for _, f := range p.ModuleFuncs("") {
+		if f.Pkg != p.MainS {
+			continue
+		}
+		instrsOf(f, func(in ssa.Instruction) {
+			switch x := in.(type) {
+			case *ssa.MakeSlice:
+				if !fresh[f] {
+					sites = append(sites, x)
+				}
+			case *ssa.Call:
+				if g := x.Call.StaticCallee(); g != nil && fresh[g] {
+					sites = append(sites, x)
+				}
+			}
+		})
+	}
+	r.universe(rule+":allocation-sites", len(sites), 4)
+	ll := longLivedTypes(p)
+	// reviewed exception: the iterator's queue holds the cloned item until Next pops and returns it; the popped
+	// element is not read again
+	except := map[string]string{
+		"pogreb.item.key":           "queued clone, popped from the queue before it is returned and never read again",
+		"pogreb.item.value":         "queued clone, popped from the queue before it is returned and never read again",
+		"pogreb.ItemIterator.queue": "the queue of cloned items",
+	}
+	returned := 0
+	for _, site := range sites {
+		site := site
+		t := NewTaint(p, []string{"pogreb."}, func(v ssa.Value) bool { return v == site })
+		reaches := ""
+		for _, f := range api {
+			for _, ret := range returnsOf(f) {
+				for i := range ret.Results {
+					v := retOperand(ret, i)
+					if isByteSliceish(v.Type()) && !isErrorType(v.Type()) && (t.Vals[v] || t.Vals[ret.Results[i]]) {
+						reaches = funcKey(f)
+					}
+				}
+			}
+		}
+		if reaches == "" {
+			continue
+		}
+		returned++
+		construct := funcKey(site.(ssa.Instruction).Parent()) + ":" + valString(site)
+		bad := false
+		for _, fld := range t.FieldList() {
+			if !ll[fieldOwner(fld)] {
+				continue
+			}
+			if _, ok := except[fld]; ok {
+				continue
+			}
+			bad = true
+			at := t.FieldAt[fld]
+			r.bad(rule, construct+"->"+fld, p.Pos(instrPos(at)), "a byte slice that "+reaches+" returns to the caller is also stored in "+fld+": the database keeps a reference to memory that belongs to the caller and can later overwrite it in place, or hand the same memory to another caller", t.Trace(at.(*ssa.Store).Val)...)
+		}
+		for g := range t.Globals {
+			bad = true
+			r.bad(rule, construct+"->global:"+g.Name(), "", "a byte slice returned to the caller is also stored in package variable "+g.Name())
+		}
+		for _, e := range t.Ext {
+			if readOnlyExternal(e.Callee) {
+				continue
+			}
+			bad = true
+			r.bad(rule, construct+"->"+e.Callee, p.Pos(instrPos(e.In)), "a byte slice that "+reaches+" returns to the caller is also handed to "+e.Callee+", which may keep it", t.Trace(e.Arg)...)
+		}
+		if !bad {
+			r.ok(rule, construct, p.Pos(site.Pos()), "the slice allocated here can be returned by "+reaches+" and is kept nowhere else", true)
+		}
+	}
+	r.universe(rule+":returned-sites", returned, 2)
 }
 
 // ruleC14CopyInsideLock: bytes of File.Slice memory are only read (copied, compared, appended from) while DB.mu is held.
@@ -508,6 +634,12 @@ func longLivedTypes(p *Program) map[string]bool {
 			visit(u.Elem(), d+1)
 		case *types.Named:
 			if u.Obj().Pkg() == nil || u.Obj().Pkg().Path() != modPath {
+				// a foreign generic container (atomic.Pointer[T], ...): what it holds
+				if ta := u.TypeArgs(); ta != nil {
+					for i := 0; i < ta.Len(); i++ {
+						visit(ta.At(i), d+1)
+					}
+				}
 				return
 			}
 			name := "pogreb." + u.Obj().Name()
